@@ -628,6 +628,264 @@ def cross_tie(geos, exact):
     return {"stats": stats, "violations": violations[:5], "notes": notes, "samples": [{"case": icases[0].cid, "input": [x[:200] for x in icases[0].lines[:3]], "model_output": mout[:2]}] if icases else []}
 
 
+# ---- step 1, direct: the (dart, t) pairs of the real generate_intersection_data (hook verif::intersection_data) -------
+
+def segment_case(rng, exact):
+    """one segment on a fresh grid, in general position; exact family: power-of-two cells, dyadic ends, |dx|, |dy| in
+    {0} u {2^a}: every f64 operation of the four macros is exact"""
+    import math
+    for _ in range(200):
+        if exact:
+            cx, cy = Fr(2) ** rng.randint(-2, 1), Fr(2) ** rng.randint(-2, 1)
+            ox, oy = Fr(rng.randint(-32, 32), 8), Fr(rng.randint(-32, 32), 8)
+            dx = rng.choice([0, 1, 1, -1, -1]) * Fr(2) ** rng.randint(-3, 3)
+            dy = rng.choice([0, 1, 1, -1, -1]) * Fr(2) ** rng.randint(-3, 3)
+            ax = ox + cx * rng.randint(1, 8) + Fr(rng.randrange(1, 64, 2), 64) * cx
+            ay = oy + cy * rng.randint(1, 8) + Fr(rng.randrange(1, 64, 2), 64) * cy
+        else:
+            cx, cy = Fr(rng.choice([1, 2, 3, 5]), rng.choice([1, 2, 4, 3])), Fr(rng.choice([1, 2, 3, 5]), rng.choice([1, 2, 4, 3]))
+            ox, oy = Fr(rng.randint(-40, 40), 10), Fr(rng.randint(-40, 40), 10)
+            dx, dy = Fr(rng.randint(-60, 60), 10), Fr(rng.randint(-60, 60), 10)
+            ax = ox + cx * Fr(rng.randint(100, 900), 100)
+            ay = oy + cy * Fr(rng.randint(100, 900), 100)
+            cx, cy, ox, oy, ax, ay, dx, dy = (Fr(float(q)) for q in (cx, cy, ox, oy, ax, ay, dx, dy))
+        bx, by = ax + dx, ay + dy
+        if (dx, dy) == (0, 0):
+            continue
+        ua, ub, va, vb = (ax - ox) / cx, (bx - ox) / cx, (ay - oy) / cy, (by - oy) / cy
+        if min(ua, ub, va, vb) < 1:
+            continue
+        if any(q.denominator == 1 for q in (ua, ub, va, vb)):
+            continue
+        if not exact and any(not (gg.TOL < q - math.floor(q) < 1 - gg.TOL) for q in (ua, ub, va, vb)):
+            continue      # an end within rounding distance of a grid line: the f64 cell index is not the exact one
+        nx, ny = math.floor(max(ua, ub)) + 2, math.floor(max(va, vb)) + 2
+        if nx * ny > 4000:
+            continue
+        # general position with the margin eps (hypothesis GenPos of C16_crossings_*)
+        eps = Fr(1, 2 ** 40) if not exact else Fr(1, 2 ** 52)
+        ok = True
+        crossings = 0
+        for (p0, p1, q0, q1) in ((ua, ub, va, vb), (va, vb, ua, ub)):
+            lo, hi = min(p0, p1), max(p0, p1)
+            for K in range(math.ceil(lo), math.floor(hi) + 1):
+                t = (K - p0) / (p1 - p0)
+                other = q0 + t * (q1 - q0)
+                frac = other - math.floor(other)
+                crossings += 1
+                if not (eps < t < 1 - eps and eps <= frac <= 1 - eps):
+                    ok = False
+        if not ok:
+            continue
+        di, dj = math.floor(ub) - math.floor(ua), math.floor(vb) - math.floor(va)
+        br = "same-cell" if (di, dj) == (0, 0) else "neighbour" if abs(di) + abs(dj) == 1 else \
+            ("row" + "+-"[di < 0]) if dj == 0 else ("column" + "+-"[dj < 0]) if di == 0 else "diagonal" + "+-"[di < 0] + "+-"[dj < 0]
+        line = "gcrossd " + " ".join(gg.rs(q) for q in (cx, cy, ox, oy)) + f" {nx} {ny} " + " ".join(gg.rs(q) for q in (ax, ay, bx, by))
+        return line, br, crossings
+    return None
+
+
+def step1_tie(rng, count, exact):
+    """hcmodel `crossingsOf` vs the hook `verif::intersection_data`: dart identifiers and relative positions t, in
+    identifier order; exact family: identical text (exact rationals); otherwise same darts, t within 1e-9"""
+    segs = [x for x in (segment_case(rng, exact) for _ in range(count)) if x]
+    cases = [Case(f"step1-{'x' if exact else 't'}-{i // 40}", ["new 2 0 0"] + [x[0] for x in segs[i:i + 40]]) for i in range(0, len(segs), 40)]
+    res = hv.run_pair(cases)
+    stats = {"cases": len(segs), "lines": 0, "disagreements": 0, "oracle_failures": 0, "impl_outcomes": {}, "ops": {"gcrossd": len(segs)},
+             "distinct_nontrivial": 0, "exhaustive": False}
+    branches, ncross = {}, 0
+    for _, br, c in segs:
+        branches[br] = branches.get(br, 0) + 1
+        ncross += c
+    violations, distinct = [], set()
+    k = 0
+    for c, li, lm in res:
+        for ln, (a, b) in enumerate(zip(li[1:], lm[1:])):
+            stats["lines"] += 1
+            distinct.add(a)
+            same = a == b
+            if not same and not exact and a.startswith("ok") and b.startswith("ok"):
+                pa = [x.split() for x in a[2:].split(";") if x.strip()]
+                pb = [x.split() for x in b[2:].split(";") if x.strip()]
+                same = len(pa) == len(pb) and all(x[0] == y[0] and x[1] != "nan" and abs(Fr(x[1]) - Fr(y[1])) <= gg.TOL for x, y in zip(pa, pb))
+            exp = segs[k + ln][2]
+            n_impl = len([x for x in a[2:].split(";") if x.strip()]) if a.startswith("ok") else -1
+            if not same or n_impl != exp:
+                stats["disagreements"] += 1
+                if len(violations) < 5:
+                    violations.append({"kind": "correspondence", "found_input": False, "sig": "gcrossd",
+                                       "what": f"step 1 of grisubal (generate_intersection_data): {c.lines[1 + ln]!r}: impl={a[:200]!r} model={b[:200]!r} "
+                                               f"(independent count of crossings: {exp})",
+                                       "replay": {"case": c.cid, "input_lines": [c.lines[1 + ln]], "impl_output": [a], "model_output": [b],
+                                                  "theorem_or_correspondence": "crossingsOf (Model/Grisubal.lean) vs grisubal::verif::intersection_data"}})
+        k += len(c.lines) - 1
+    stats["distinct_nontrivial"] = len(distinct)
+    notes = [f"gcrossd tie ({'exact: identical text' if exact else 'same darts, t within 1e-9'}): {len(segs)} segments, {ncross} crossings, all inside the "
+             f"GenPos hypothesis of C16_crossings_*; code paths {dict(sorted(branches.items()))}"]
+    return {"stats": stats, "violations": violations, "samples": [{"case": "step1", "input": [segs[0][0]], "impl_output": res[0][1][1:2]}] if segs else [], "notes": notes}
+
+
+# ---- clip step: model (Model/Clip.lean) vs the real clip_left / clip_right (hook grisubal::verif) -----------------------
+
+def canon_clip(line):
+    """`delete_darts` iterates a HashSet: which *stale* vertex slots (slots that are no vertex identifier of an in-use dart
+    any more) still hold coordinates depends on that order; compare coordinates at live vertex identifiers only"""
+    if not line.startswith("snap "):
+        return line
+    try:
+        sn = gg.parse_snap(line)
+        m = gg.Mesh(sn)
+        live = set(m.vertices)
+        parts = [p.strip() for p in line.split("|")]
+        out = []
+        for p in parts:
+            if p.startswith("a0:"):
+                toks = p[3:].split()
+                out.append("a0: " + " ".join(t if d in live else "~" for d, t in enumerate(toks)))
+            else:
+                out.append(p)
+        return " | ".join(out)
+    except Exception:   # noqa: BLE001
+        return line
+
+
+def grid_region_case(rng, k):
+    """a grid, a set S of cells; every side between S and its complement is tagged (S side = `inner`, other side = the
+    opposite tag): clipping `inner` must delete exactly S; variants: a side left untagged (the closure leaks), a wrong tag
+    (error), explicit Boundary::None tags, tags on the outer rim"""
+    nx, ny = rng.randint(2, 5), rng.randint(1, 4)
+    n = 4 * nx * ny
+    cells = [(i, j) for i in range(nx) for j in range(ny)]
+    S = set(rng.sample(cells, rng.randint(1, max(1, len(cells) - 1))))
+    inner = rng.choice(["L", "R"])
+    outer = "R" if inner == "L" else "L"
+    base = lambda i, j: 1 + 4 * (i + nx * j)   # noqa: E731
+    lines = [f"grid 2 0 0 ncl 0 0 {nx} {ny} 1 1", "bndinit"]
+    tags = []
+    for (i, j) in cells:
+        for k2, (di, dj) in enumerate(((0, -1), (1, 0), (0, 1), (-1, 0))):
+            ni, nj = i + di, j + dj
+            if (i, j) in S and 0 <= ni < nx and 0 <= nj < ny and (ni, nj) not in S:
+                d = base(i, j) + k2
+                e = base(ni, nj) + (k2 + 2) % 4
+                tags.append((d, inner))
+                tags.append((e, outer))
+    variant = k % 6
+    if variant == 1 and tags:
+        tags.pop(rng.randrange(len(tags)))                      # one tag missing
+    elif variant == 2 and tags:
+        i = rng.randrange(len(tags))
+        tags[i] = (tags[i][0], "L" if tags[i][1] == "R" else "R")   # one tag flipped
+    elif variant == 3:
+        tags += [(rng.randint(1, n), "N") for _ in range(3)]
+    elif variant == 4:
+        tags.append((rng.randint(1, n), rng.choice("LR")))       # a stray tag
+    rng.shuffle(tags)
+    lines += [f"wbnd {d} {t}" for d, t in tags]
+    side = "left" if (inner == "L") == (variant != 5) else "right"
+    lines += ["snap", f"clip {side}", "snap", "wf"]
+    return Case(f"clip-grid-{k}", lines, meta={"sig": "clip-grid"})
+
+
+def small_clip_cases(rng, budget):
+    """every well-formed 2-map with <= 3 darts (sampled 4-dart maps) x random tags, both sides"""
+    import gens
+    cases = []
+    k = 0
+    for n in range(1, 5):
+        maps = list(gens.wf_maps2(n, with_unused=(n <= 3)))
+        if n == 4:
+            maps = rng.sample(maps, min(budget, len(maps)))
+        for b0, b1, b2, u in maps:
+            for rep in range(2 if n <= 3 else 1):
+                lines = [gens.load_line(2, n, 0, [b0, b1, b2], u), "bndinit"]
+                for d in range(1, n + 1):
+                    if rng.random() < 0.8:
+                        lines.append(f"wv {d} {d} {d * d % 5}")
+                    t = rng.choice("LRN---")
+                    if t != "-":
+                        lines.append(f"wbnd {d} {t}")
+                lines += [f"clip {rng.choice(['left', 'right'])}", "snap", "wf"]
+                k += 1
+                cases.append(Case(f"clip-small-{n}-{k}", lines, meta={"sig": "clip-small"}))
+    return cases
+
+
+def face_set(sn):
+    """canonical mesh: the set of faces as cyclic sequences of exact coordinates (rotation-normalised)"""
+    m = gg.Mesh(sn)
+    out = set()
+    for cyc in m.faces:
+        pts = m.face_pts(cyc)
+        if any(p is None for p in pts):
+            return None
+        k = min(range(len(pts)), key=lambda i: pts[i])
+        out.add(tuple(pts[k:] + pts[:k]))
+    return out
+
+
+def real_clip_cases(geos):
+    """the maps the real grisubal builds BEFORE clipping, rebuilt from `grisubal none`: same betas and coordinates, Boundary tags
+    recomputed from the captured boundary (dart along the boundary = Left, its beta2 = Right, as mark_boundary does); both drivers
+    clip them, and the implementation's result must be the mesh `grisubal left|right` returns directly"""
+    import gens
+    icases = []
+    for k, g in enumerate(geos):
+        icases.append(Case(f"pre-{k}", [g.line("grisubal", "none"), "snap", g.line("grisubal", "left"), "snap", g.line("grisubal", "right"), "snap"]))
+    rc, out = hv.run_bin(hv.HCIMPL, hv.render(icases))
+    groups = hv.split_outputs(out)
+    cases = []
+    for k, g in enumerate(geos):
+        li = groups[k][1] if k < len(groups) else []
+        if len(li) != 6 or li[0] != "ok" or li[2] != "ok" or li[4] != "ok":
+            continue
+        sn = gg.parse_snap(li[1])
+        m = gg.Mesh(sn)
+        if sn["n"] > 2500:
+            continue
+        byv = {}
+        for d in m.used:
+            byv.setdefault(m.P[d], []).append(d)
+        tags = {}
+        ok = True
+        for lp in g.captured_loops():
+            for i in range(len(lp)):
+                p, q = lp[i], lp[(i + 1) % len(lp)]
+                cand = [d for pp, ds in byv.items() if gg.near(pp, p) for d in ds if gg.near(m.P[m.b1[d]], q)]
+                if len(cand) != 1 or not m.b2[cand[0]]:
+                    ok = False
+                    break
+                tags[cand[0]] = "L"
+                tags[m.b2[cand[0]]] = "R"
+        if not ok or not tags:
+            continue
+        pre = [gens.load_line(2, sn["n"] - 1, 0, [sn["b"][0], sn["b"][1], sn["b"][2]], sn["u"])]
+        pre += [f"wv {v} {gg.rs(sn['a0'][v][0])} {gg.rs(sn['a0'][v][1])}" for v in m.vertices]
+        pre += ["bndinit"] + [f"wbnd {d} {t}" for d, t in sorted(tags.items())]
+        for side, direct in (("left", li[3]), ("right", li[5])):
+            cases.append(Case(f"clip-real-{k}-{side}", pre + [f"clip {side}", "snap", "wf"], oracle="clip-real",
+                              meta={"sig": "clip-real", "direct": direct}))
+    return cases
+
+
+def real_clip_oracle(case, li):
+    if case.oracle != "clip-real":
+        return None
+    if len(li) < 3 or li[-3] != "ok" or li[-1] != "wf true true true":
+        return f"clip-real: clip on the rebuilt map answered {li[-3:-2]} / {li[-1:]}"
+    a = face_set(gg.parse_snap(li[-2]))
+    b = face_set(gg.parse_snap(case.meta["direct"]))
+    if a is None or b is None or a != b:
+        return "clip-real: clipping the rebuilt pre-clip map does not give the mesh grisubal returns with the same Clip"
+    return None
+
+
+def clip_tie(rng, tier):
+    mult = 1 if tier == "quick" else 8
+    cases = [grid_region_case(rng, k) for k in range(300 * mult)] + small_clip_cases(rng, 400 * mult)
+    return hv.campaign(cases, None, canon=canon_clip)
+
+
 # ---------------------------------------------------------------------------------------------
 # run
 # ---------------------------------------------------------------------------------------------
@@ -640,6 +898,13 @@ def run(tier, seed):
     geo = geometry_cases(rng, 130 * mult)
     parts.append(("grisubal on polygons in general position (implementation, exact oracle)", gg.impl_campaign(geo, oracle)))
     parts.append(("overlapping grid: model sizing formula vs bounding box of the returned map", grid_tie(geo)))
+    parts.append(("step 1 direct (hook intersection_data): (dart, t) pairs, model vs implementation, exact family", step1_tie(rng, 1500 * mult, True)))
+    parts.append(("step 1 direct (hook intersection_data): (dart, t) pairs, general segments (t within 1e-9)", step1_tie(rng, 500 * mult, False)))
+    parts.append(("clip step: model vs the real clip_left / clip_right on hand-made tagged maps", clip_tie(rng, tier)))
+    pre = [c.meta["geo"] for c in geo if c.meta["clip"] == "none" and not c.meta["geo"].loops_crossing_nothing()
+           and not c.meta["geo"].flat_chords()[0]][:40 * mult]
+    parts.append(("clip step on the real pre-clip maps (rebuilt from grisubal none + recomputed tags): model vs implementation, "
+                  "and = grisubal left|right", hv.campaign(real_clip_cases(pre), real_clip_oracle, canon=canon_clip)))
     zon = [z for z in (zonogon_geometry(rng) for _ in range(60 * mult)) if z]
     parts.append(("step 1 (crossings per segment): model vs implementation, exact family (zonogons, power-of-two cells)", cross_tie(zon, True)))
     gen = [c.meta["geo"] for c in geo if c.meta["clip"] == "none" and not c.meta["geo"].loops_crossing_nothing()
